@@ -307,6 +307,7 @@ class Group:
     extra_cflags: List[str] = field(default_factory=list)
     shape: str = ""                            # human readable shape tuple
     supporting: bool = False                   # outside the property's quantifier, reported separately
+    exploratory: bool = False                  # deeper-tier-only group: no verdict (time/memory) is reported as UNEXPLORED, not as undecided
     native_tus: Optional[List[str]] = None     # TUs for the native replay build (default: tus)
     min_obligations: int = 1
     solver: Optional[str] = None               # e.g. "--sat-solver cadical"
@@ -683,7 +684,11 @@ def run_groups(runner: Runner, groups: List[Group], progress=True) -> List[Group
     lock = threading.Lock()
     done = [0]
 
+    cap = int(os.environ.get("VERIF_TIMEOUT_CAP", "0") or 0)   # optional cap on the per-group solver budget of exploratory groups (smoke runs of the deeper tier)
+
     def work(g: Group):
+        if cap and g.exploratory:
+            g.timeout = min(g.timeout, cap)
         n = max(1, min(g.slots, NCPU))
         with cond:
             while free[0] < n:
